@@ -118,7 +118,10 @@ def streamName (q : QStep) : List UInt8 := (q.sos.orElse fun _ => q.qname).getD 
 
 /-- `RandomState` reconstructed from the probes of one history -/
 def mkRandomState (p : RrlParams) (qs : List QStep) : RandomState :=
-  let names : List (List UInt8 × UInt32) := qs.map fun q => (lowerName (streamName q), UInt32.ofNat q.qhash)
+  -- the probe reports the QNAME hash only for NOERROR responses (0 otherwise, as in the key)
+  let names : List (List UInt8 × UInt32) := qs.filterMap fun q =>
+    if Category.ofExtendedRcode q.rcode = .NoError then some (lowerName (streamName q), UInt32.ofNat q.qhash)
+    else none
   let hashName : List UInt8 → UInt32 := fun n => (names.lookup n).getD 0
   let rs0 : RandomState := { hashName, hashKey := fun _ => 0 }
   let keys : List (Key × Nat) := qs.filterMap fun q =>
